@@ -1976,4 +1976,115 @@ Proof.
 Qed.
 End Precedence.
 
+
+(* ---- FILL loop + inlining from ANY table with fresh counters, empty cache, no provenance -------
+   (the table need not come from the TRCL loop: e.g. lattices may have been developed first) *)
+Lemma Represents_inline : forall s du s2 fuel num den cells3 key k ch,
+  inline_cells fuel num den (s_cells s2) = Ok cells3 ->
+  Represents s du s2 key k ch -> Represents s du (set_cells s2 cells3) key k ch.
+Proof.
+  intros s du s2 fuel num den cells3 key k ch Hinl
+         (ncl & lcl & H1 & H2 & H3 & H4 & H5 & H6 & H7 & H8).
+  destruct (inline_cells_fields _ _ _ _ _ Hinl k ncl H1) as (g & Hg).
+  pose proof (inline_cells_den fuel num den s2 cells3 Hinl) as Fwd.
+  pose proof (inline_cells_den_conv fuel num den s2 cells3 Hinl) as Bwd.
+  exists (with_geom ncl g), lcl. split; [exact Hg|]. split; [exact H2|].
+  split; [exact H3|]. split; [exact H4|]. split; [exact H5|]. split; [exact H6|]. split.
+  - intros p b HL. pose proof (H7 p b HL) as D2.
+    assert (D3 : Den (set_cells s2 cells3) p (TRef k) b) by (apply Fwd; eapply DRef; eauto).
+    destruct (Den_ref_inv _ _ _ _ D3) as (c3 & Hc3 & D3g). cbn [set_cells s_cells] in Hc3.
+    rewrite Hg in Hc3. inversion Hc3; subst c3. exact D3g.
+  - intros p D3g. apply Fwd. apply H8.
+    assert (D3 : Den (set_cells s2 cells3) p (TRef k) true).
+    { eapply DRef; [cbn [set_cells s_cells]; exact Hg | exact D3g]. }
+    destruct (Den_ref_inv _ _ _ _ (Bwd _ _ _ D3)) as (c2 & Hc2 & D2g).
+    rewrite H1 in Hc2. inversion Hc2; subst c2. exact D2g.
+Qed.
+
+Lemma Represents_Verdict : forall s du s3 key p ch k ch',
+  LocB s du key p ch true -> Represents s du s3 key k ch' -> Verdict s du s3 key p ch k ch'.
+Proof.
+  intros s du s3 key p ch k ch' HL (ncl & lcl & H1 & _ & _ & _ & _ & _ & H7 & _). split.
+  - intros ->. eapply DRef; [exact H1 | apply H7; exact HL].
+  - intros Hpart Hne b' HL'.
+    rewrite (LocB_unique s du Hpart key p ch true HL eq_refl ch' b' HL' Hne) in HL'.
+    eapply DRef; [exact H1 | apply H7; exact HL'].
+Qed.
+
+Theorem fill_inline_located : forall fuel cf ifd ifg num den (s s2 : state) rs cells3,
+  fresh_ok s -> s_cache s = [] ->
+  (forall c cl, dget c (s_cells s) = Some cl -> c_orig cl = []) ->
+  fill_phase fuel cf ifd ifg s = Ok (rs, s2) ->
+  inline_cells fuel num den (s_cells s2) = Ok cells3 ->
+  Forall2 (Outcome s (by_universe (s_cells s)) (set_cells s2 cells3)) (fill_keys (s_cells s)) rs.
+Proof.
+  intros fuel cf ifd ifg num den s s2 rs cells3 Hf Hc Ho Hfill Hinl.
+  destruct (fill_phase_located fuel cf ifd ifg s rs s2 Hf Hc Ho Hfill) as (_ & _ & HR).
+  eapply Forall2_imp; [|exact HR]. intros key ks (chs & HP & HRep & _).
+  assert (HR3 : Forall2 (Represents s (by_universe (s_cells s)) (set_cells s2 cells3) key) ks chs).
+  { eapply Forall2_imp; [|exact HRep]. intros k ch Hr. eapply Represents_inline; eauto. }
+  exists chs. split; [exact HP|]. split; [exact HR3|].
+  intros p ch HL. split; [eapply Paths_complete; eauto|].
+  eapply Forall2_imp; [|exact HR3]. intros k ch' Hr. apply Represents_Verdict; assumption.
+Qed.
+
+(* ---- removing a cell that nothing refers to (develop_lattice ends with del dic[key]) ---------- *)
+Fixpoint ddel {V : Type} (k : Z) (d : list (Z * V)) : list (Z * V) :=
+  match d with
+  | [] => []
+  | (k', v) :: r => if k =? k' then ddel k r else (k', v) :: ddel k r
+  end.
+
+Lemma dget_ddel_same : forall {V} k (d : list (Z * V)), dget k (ddel k d) = None.
+Proof.
+  intros V k d. induction d as [|[k' v] r IH]; cbn; [reflexivity|].
+  destruct (k =? k') eqn:E; [exact IH|]. cbn. rewrite E. exact IH.
+Qed.
+
+Lemma dget_ddel_other : forall {V} k k' (d : list (Z * V)), k' <> k -> dget k' (ddel k d) = dget k' d.
+Proof.
+  intros V k k' d Hne. induction d as [|[k0 v] r IH]; cbn; [reflexivity|].
+  destruct (k =? k0) eqn:E.
+  - apply Z.eqb_eq in E. subst k0.
+    destruct (k' =? k) eqn:E2; [apply Z.eqb_eq in E2; contradiction | exact IH].
+  - cbn. destruct (k' =? k0); [reflexivity | exact IH].
+Qed.
+
+Definition del_cell (s : state) (k : Z) : state := set_cells s (ddel k (s_cells s)).
+
+(* on a table without CellRef, values of the remaining cells do not change *)
+Lemma Den_del_cell : forall (s : state) k p, all_ref_free s ->
+  forall c b, c <> k -> Den s p (TRef c) b -> Den (del_cell s k) p (TRef c) b.
+Proof.
+  intros s k p Hrf c b Hne HD. destruct (Den_ref_inv _ _ _ _ HD) as (cl & Hc & HDg).
+  eapply DRef; [unfold del_cell; cbn [set_cells s_cells]; rewrite dget_ddel_other by exact Hne; exact Hc|].
+  apply (proj1 (Den_ref_free_surfs s (del_cell s k) p (fun k0 v H => H))); [exact HDg | exact (Hrf _ _ Hc)].
+Qed.
+
+
+Lemma cell_transform_ref_free : forall fuel k t cache (s : state) k' s',
+  all_ref_free s -> cell_transform fuel k t cache s = Ok (k', s') ->
+  all_ref_free s' /\ (cache = false -> s_cache s' = s_cache s).
+Proof.
+  intros fuel k t cache s k' s' Hrf H. destruct fuel as [|f]; [discriminate|].
+  cbn [Model.cell_transform] in H.
+  destruct (if cache then cget k t (s_cache s) else None) as [kc|].
+  - inversion H; subst. split; [exact Hrf | reflexivity].
+  - destruct (tr_empty t).
+    + inversion H; subst. destruct cache; split; try exact Hrf; try reflexivity; discriminate.
+    + destruct (dget k (s_cells s)) as [cl|] eqn:Ecl; [|discriminate].
+      destruct (pot_transform_gen (fun c => cell_transform f c t true) t (c_geom cl) s)
+        as [[g' s1]|] eqn:Eg; [|discriminate].
+      destruct (ptg_ref_free _ _ _ _ _ _ (Hrf k cl Ecl) Eg) as ((C1 & C2 & C3) & C4).
+      assert (Hnew : all_ref_free (mkSt (dset (s_nck s1 + 1) (with_geom cl g') (s_cells s1)) (s_surfs s1)
+                                        (s_nck s1 + 1) (s_nsk s1) (s_cache s1) (s_rcache s1))).
+      { intros k0 cl0 Hk0. cbn [s_cells] in Hk0.
+        destruct (Z.eq_dec k0 (s_nck s1 + 1)) as [->|Hne].
+        - rewrite dget_dset_same in Hk0. inversion Hk0; subst. exact C4.
+        - rewrite dget_dset_other in Hk0 by exact Hne. rewrite C1 in Hk0. exact (Hrf _ _ Hk0). }
+      destruct cache; inversion H; subst k' s'.
+      * split; [intros k0 cl0 Hk0; exact (Hnew k0 cl0 Hk0) | discriminate].
+      * split; [exact Hnew | intros _; cbn [s_cache]; exact C2].
+Qed.
+
 End Proofs.
